@@ -28,6 +28,11 @@ type c16Case struct {
 	NP int `json:"np,omitempty"`
 	PA int `json:"pa,omitempty"`
 	PP int `json:"pp,omitempty"`
+	// pair: a second variant unit (index into c16Variants) at (QA, QP); full: every unit populated
+	V1 int `json:"v1,omitempty"`
+	V2 int `json:"v2,omitempty"`
+	QA int `json:"qa,omitempty"`
+	QP int `json:"qp,omitempty"`
 }
 
 func c16GN(kind int, where string) *refcfg.GeneralName {
@@ -63,16 +68,36 @@ func c16NA(mask int, where string) *refcfg.NamingAuthority {
 
 var c16ItemSets = [][]string{{"Arzt"}, {"Ärztin/Arzt", "Apotheker"}, {"A", "B", "日本"}}
 
-func c16Unit(c *c16Case) (refcfg.Admissions, refcfg.ProfessionInfo) {
+func c16Unit(c *c16Case) (refcfg.Admissions, refcfg.ProfessionInfo) { return c16UnitAt(c, 0) }
+
+// c16UnitAt: pos > 0 makes every value position-dependent, so that members of different
+// units can never be confused with each other
+func c16UnitAt(c *c16Case, pos int) (refcfg.Admissions, refcfg.ProfessionInfo) {
 	pi := refcfg.ProfessionInfo{NamingAuthority: c16NA(c.ProfNA, "prof"), ProfessionItems: c16ItemSets[c.Items]}
+	base := 30 + 10*pos
 	switch c.Oids {
 	case 1:
-		pi.ProfessionOids = refcfg.Strs("1.2.276.0.76.4.30")
+		pi.ProfessionOids = refcfg.Strs(fmt.Sprintf("1.2.276.0.76.4.%d", base))
 	case 2:
-		pi.ProfessionOids = refcfg.Strs("1.2.276.0.76.4.30", "1.2.276.0.76.4.31")
+		pi.ProfessionOids = refcfg.Strs(fmt.Sprintf("1.2.276.0.76.4.%d", base), fmt.Sprintf("1.2.276.0.76.4.%d", base+1))
+	case 3:
+		pi.ProfessionOids = refcfg.Strs(fmt.Sprintf("1.2.276.0.76.4.%d", base), fmt.Sprintf("1.2.276.0.76.4.%d", base+1), fmt.Sprintf("1.2.276.0.76.4.%d", base+2))
+	}
+	if pos > 0 {
+		items := []string{}
+		for _, it := range c16ItemSets[c.Items] {
+			items = append(items, fmt.Sprintf("%s #%d", it, pos))
+		}
+		pi.ProfessionItems = items
+		if pi.NamingAuthority != nil && pi.NamingAuthority.Text != nil {
+			pi.NamingAuthority.Text = refcfg.S(fmt.Sprintf("%s #%d", *pi.NamingAuthority.Text, pos))
+		}
+		if pi.NamingAuthority != nil && pi.NamingAuthority.Oid != nil {
+			pi.NamingAuthority.Oid = refcfg.S(fmt.Sprintf("%s.%d", *pi.NamingAuthority.Oid, pos))
+		}
 	}
 	if c.Reg == 1 {
-		pi.RegistrationNumber = refcfg.S("1-2-3-4-5")
+		pi.RegistrationNumber = refcfg.S(fmt.Sprintf("1-2-3-4-%d", 5+pos))
 	}
 	switch c.Add {
 	case 1:
@@ -84,15 +109,25 @@ func c16Unit(c *c16Case) (refcfg.Admissions, refcfg.ProfessionInfo) {
 	case 4:
 		pi.AddProfessionInfo = refcfg.Bin(bytes.Repeat([]byte{0xab}, 1000))
 	}
-	ad := refcfg.Admissions{AdmissionAuthority: c16GN(c.AdmAuth, "adm"), NamingAuthority: c16NA(c.AdmNA, "adm")}
+	if pos > 0 && c.Add == 1 {
+		pi.AddProfessionInfo = refcfg.Bin([]byte{1, 2, 3, byte(pos)})
+	}
+	ad := refcfg.Admissions{AdmissionAuthority: c16GN(c.AdmAuth, fmt.Sprintf("adm%d", pos)), NamingAuthority: c16NA(c.AdmNA, "adm")}
+	if pos > 0 && ad.NamingAuthority != nil && ad.NamingAuthority.Url != nil {
+		ad.NamingAuthority.Url = refcfg.S(fmt.Sprintf("%s/%d", *ad.NamingAuthority.Url, pos))
+	}
 	return ad, pi
 }
 
+var c16Variants = []c16Case{
+	{AdmAuth: 1}, {AdmAuth: 2}, {AdmAuth: 3}, {AdmAuth: 4}, {AdmNA: 1}, {AdmNA: 2}, {AdmNA: 4}, {AdmNA: 7},
+	{ProfNA: 1}, {ProfNA: 2}, {ProfNA: 4}, {ProfNA: 7}, {Oids: 1}, {Oids: 2}, {Oids: 3}, {Reg: 1}, {Add: 1}, {Add: 2}, {Add: 3}, {Items: 1}, {Items: 2},
+	{TopAuth: 2, AdmAuth: 3, AdmNA: 7, ProfNA: 7, Oids: 2, Reg: 1, Add: 1, Items: 2},
+}
+
 func c16Enumerate(tier string, yield func(any)) {
-	naMasks := []int{0, 1, 7}
-	if tier == "thorough" {
-		naMasks = []int{0, 1, 2, 3, 4, 5, 6, 7}
-	}
+	c16EnumerateMore(tier, yield)
+	naMasks := []int{0, 1, 2, 3, 4, 5, 6, 7}
 	for top := 0; top < 5; top++ {
 		for aa := 0; aa < 5; aa++ {
 			for _, ana := range naMasks {
@@ -109,11 +144,7 @@ func c16Enumerate(tier string, yield func(any)) {
 		}
 	}
 	// shapes: every single-unit variant at every position against default neighbours
-	variants := []c16Case{
-		{AdmAuth: 1}, {AdmAuth: 2}, {AdmAuth: 3}, {AdmAuth: 4}, {AdmNA: 1}, {AdmNA: 2}, {AdmNA: 4}, {AdmNA: 7},
-		{ProfNA: 1}, {ProfNA: 2}, {ProfNA: 4}, {ProfNA: 7}, {Oids: 1}, {Oids: 2}, {Reg: 1}, {Add: 1}, {Add: 2}, {Add: 3}, {Items: 1}, {Items: 2},
-		{TopAuth: 2, AdmAuth: 3, AdmNA: 7, ProfNA: 7, Oids: 2, Reg: 1, Add: 1, Items: 2},
-	}
+	variants := c16Variants
 	for na := 1; na <= 3; na++ {
 		for np := 1; np <= 3; np++ {
 			for pa := 0; pa < na; pa++ {
@@ -130,6 +161,35 @@ func c16Enumerate(tier string, yield func(any)) {
 	}
 }
 
+// c16EnumerateMore: two variant units at two different positions of one tree (values are
+// position-dependent), and fully populated trees
+func c16EnumerateMore(tier string, yield func(any)) {
+	sel := []int{12, 13, 14, 11, 15, 16, 7, 21} // oids 1/2/3, profNA all, reg, add, admNA all, everything
+	for na := 1; na <= 3; na++ {
+		for np := 1; np <= 3; np++ {
+			n := na * np
+			for p1 := 0; p1 < n; p1++ {
+				for p2 := 0; p2 < n; p2++ {
+					if p1 == p2 {
+						continue
+					}
+					for _, v1 := range sel {
+						for _, v2 := range sel {
+							if tier != "thorough" && (v1+v2+p1+p2)%3 != 0 {
+								continue
+							}
+							yield(&c16Case{Kind: "pair", NA: na, NP: np, PA: p1 / np, PP: p1 % np, QA: p2 / np, QP: p2 % np, V1: v1, V2: v2})
+						}
+					}
+				}
+			}
+			for v := range c16Variants {
+				yield(&c16Case{Kind: "full", NA: na, NP: np, V1: v})
+			}
+		}
+	}
+}
+
 func c16Exec(x *engine.Ctx, cc any) {
 	c := cc.(*c16Case)
 	adm := &refcfg.Admission{AdmissionAuthority: c16GN(c.TopAuth, "top")}
@@ -137,6 +197,41 @@ func c16Exec(x *engine.Ctx, cc any) {
 		ad, pi := c16Unit(c)
 		ad.ProfessionInfos = []refcfg.ProfessionInfo{pi}
 		adm.Admissions = []refcfg.Admissions{ad}
+	} else if c.Kind == "pair" || c.Kind == "full" {
+		for a := 0; a < c.NA; a++ {
+			var ad refcfg.Admissions
+			for p := 0; p < c.NP; p++ {
+				pos := 1 + a*c.NP + p
+				var uc *c16Case
+				switch {
+				case c.Kind == "full":
+					u := c16Variants[(c.V1+pos)%len(c16Variants)]
+					if pos%2 == 0 {
+						u = c16Variants[len(c16Variants)-1]
+					}
+					uc = &u
+				case a == c.PA && p == c.PP:
+					u := c16Variants[c.V1]
+					uc = &u
+				case a == c.QA && p == c.QP:
+					u := c16Variants[c.V2]
+					uc = &u
+				}
+				if uc == nil {
+					ad.ProfessionInfos = append(ad.ProfessionInfos, refcfg.ProfessionInfo{ProfessionItems: []string{fmt.Sprintf("Item %d.%d", a, p)}})
+					continue
+				}
+				uad, upi := c16UnitAt(uc, pos)
+				if uad.AdmissionAuthority != nil {
+					ad.AdmissionAuthority = uad.AdmissionAuthority
+				}
+				if uad.NamingAuthority != nil {
+					ad.NamingAuthority = uad.NamingAuthority
+				}
+				ad.ProfessionInfos = append(ad.ProfessionInfos, upi)
+			}
+			adm.Admissions = append(adm.Admissions, ad)
+		}
 	} else {
 		for a := 0; a < c.NA; a++ {
 			var ad refcfg.Admissions
@@ -184,7 +279,7 @@ func init() {
 	register(&engine.Check{
 		ID:          "C16",
 		Level:       "exploration",
-		Rule:        "one admission x one profession info over the full product: top-level authority {none,ip,dns,mail,url} x admission authority (5) x admission naming authority subsets of {oid,url,text} (quick: {none,oid,all}; thorough: all 8) x profession naming authority (same) x professionOids {none,1,2} x registrationNumber {none,set} x addProfessionInfo {none,!binary,!null,!empty,1000-byte !binary}, item sets incl. non-ASCII; plus 1..3 admissions x 1..3 profession infos with each of 21 single-member variants placed at every position against default neighbours. Each through a whole run; the value must equal the reference DER encoding of CommonPKI AdmissionSyntax (explicit [0]/[1] wrappers, IA5String url, UTF8String text/items, PrintableString registration number, OCTET STRING info, GeneralName tags [1]/[2]/[6]/[7]). non-trivial = distinct case",
+		Rule:        "one admission x one profession info over the full product: top-level authority {none,ip,dns,mail,url} x admission authority (5) x admission naming authority subsets of {oid,url,text} (all 8) x profession naming authority (same) x professionOids {none,1,2} x registrationNumber {none,set} x addProfessionInfo {none,!binary,!null,!empty,1000-byte !binary}, item sets incl. non-ASCII; plus 1..3 admissions x 1..3 profession infos with each of 22 single-member variants placed at every position against default neighbours, with two variants (8 x 8, a third of them in quick) at every ordered pair of positions using position-dependent values, and 22 fully populated trees per shape. Each through a whole run; the value must equal the reference DER encoding of CommonPKI AdmissionSyntax (explicit [0]/[1] wrappers, IA5String url, UTF8String text/items, PrintableString registration number, OCTET STRING info, GeneralName tags [1]/[2]/[6]/[7]). non-trivial = distinct case",
 		Bound:       map[string]string{"admissions": "<=3", "profession infos": "<=3"},
 		Assumptions: []string{"an empty naming authority, an empty professionItems list and an empty professionOids list have no agreed encoding and are not in the alphabet"},
 		Budget:      budgets(quickBudget, thoroughBudget),
